@@ -4,8 +4,65 @@ HASH_N = {"sha256_256": 32, "sha256_192": 24, "sha256_128": 16,
           "shake256_256": 32, "shake256_192": 24, "shake256_128": 16}
 
 
+class Bases:
+    """Large byte strings recur across cases (prefixes, patches, extensions of the same signature).
+    They are defined once per shard and referred to by name."""
+
+    def __init__(self):
+        self.bases = []      # hex strings
+        self.used = set()
+
+    def lookup(self, h):
+        if len(h) < 160:
+            return None
+        for i, base in enumerate(self.bases):
+            if h == base:
+                self.used.add(i)
+                return "base_%d" % i
+            if len(h) < len(base) and base.startswith(h):
+                self.used.add(i)
+                return "(firstn %d%%nat base_%d)" % (len(h) // 2, i)
+            if len(h) > len(base) and h.startswith(base) and len(h) - len(base) <= 200:
+                self.used.add(i)
+                return '(base_%d ++ unhex "%s")' % (i, h[len(base):])
+            if len(h) == len(base):
+                lo = 0
+                while lo < len(h) and h[lo] == base[lo]:
+                    lo += 1
+                hi = len(h)
+                while hi > lo and h[hi - 1] == base[hi - 1]:
+                    hi -= 1
+                lo -= lo % 2
+                hi += hi % 2
+                if hi - lo <= 64:
+                    self.used.add(i)
+                    return '(blit base_%d %d%%nat (unhex "%s"))' % (i, lo // 2, h[lo:hi])
+        self.bases.append(h)
+        self.used.add(len(self.bases) - 1)
+        return "base_%d" % (len(self.bases) - 1)
+
+    def preamble(self):
+        return "".join('Definition base_%d : list byte := Eval vm_compute in %s.\n' % (i, lit(self.bases[i]))
+                       for i in sorted(self.used))
+
+
+def lit(hexstr, chunk=8000):
+    """a byte-string literal; long ones are split so that no single Coq string is huge"""
+    if len(hexstr) <= chunk:
+        return '(unhex "%s")' % hexstr
+    parts = [hexstr[i:i + chunk] for i in range(0, len(hexstr), chunk)]
+    return "(" + " ++ ".join('unhex "%s"' % p for p in parts) + ")"
+
+
+CTX = None
+
+
 def b(hexstr):
-    return '(unhex "%s")' % hexstr
+    if CTX is not None:
+        r = CTX.lookup(hexstr)
+        if r:
+            return r
+    return lit(hexstr)
 
 
 def rbytes(o):
@@ -66,6 +123,10 @@ def r_verify(j):
     return "CVerify %s %s %s %s %s" % (nat(HASH_N[j["hash"]]), b(j["msg"]), b(j["sig"]), b(j["pk"]), runit(j["verdict"]))
 
 
+def r_try_sign(j):
+    return "CTrySign %s %s %s %s %s" % (nat(HASH_N[j["hash"]]), b(j["blob"]), b(j["msg"]), rbytes(j["sig"]), rbytes(j["after"]))
+
+
 def r_lifetime(j):
     return "CLifetime %s %s %s" % (nat(HASH_N[j["hash"]]), b(j["blob"]), rnum(j["life"]))
 
@@ -75,6 +136,7 @@ KINDS = {
     "sign": r_sign,
     "verify": r_verify,
     "lifetime": r_lifetime,
+    "try_sign": r_try_sign,
     "ots_param": r_ots_param,
     "coefs": r_coefs,
     "digits": r_digits,
@@ -82,8 +144,13 @@ KINDS = {
 }
 
 
-def render_case(j):
-    return KINDS[j["k"]](j)
+def render_case(j, ctx=None):
+    global CTX
+    CTX = ctx
+    try:
+        return KINDS[j["k"]](j)
+    finally:
+        CTX = None
 
 
 def case_cost(j):
